@@ -22,7 +22,7 @@ func init() {
 			"Roland checksum rule: (sum of address + payload/size bytes + checksum) mod 128 == 0",
 			"ids and addresses are 7-bit values (sysex data bytes)",
 		},
-		Require: []string{"dataset_values", "request_values", "corruptions_rejected", "checksum_nonzero", "locate_values", "command_values", "held_across_later_build", "reparse_after_modification", "reused_receivers", "dump_packets_built", "appends_to_parsed_payloads", "kept_values_checked_after_gc", "mmc_messages_held_across_later_builds"},
+		Require: []string{"dataset_values", "request_values", "corruptions_rejected", "checksum_nonzero", "locate_values", "command_values", "held_across_later_build", "reparse_after_modification", "reused_receivers", "dump_packets_built", "appends_to_parsed_payloads", "kept_values_checked_after_gc", "mmc_messages_held_across_later_builds", "built_messages_alive_at_once"},
 		Run:     runC18,
 	})
 }
@@ -333,6 +333,32 @@ func runC18(c *mon.Ctx) {
 			c.Violation("parse-gmreset", fmt.Sprintf("Parse(GMReset.SysEx()) = %+v, %v", p, err), mon.Hex(bt), "GMReset", fmt.Sprint(p, err))
 		}
 		c.DistinctBytes(bt)
+	})
+
+	// a bulk dump in thousands of packets that are all built first and sent later: 70 KiB to 300 KiB of built messages of
+	// one size (16, 15, 17, 19, 24 bytes ...) are alive at the same time; every one still parses back to its value
+	c.Each("many-built-messages", c.N(8, 80), func(i int64, r *mon.Rand) {
+		plen := []int{6, 5, 7, 9, 14, 1, 22, 54}[i%8]
+		n := 9000 + r.Intn(9000)
+		vals := make([]sysex.Manufacturer, n)
+		built := make([][]byte, n)
+		for k := range vals {
+			m := sysex.Manufacturer{ManufacturerID: sysex.ManufacturerID(0x41), DeviceID: byte(k & 15), ModelID: byte(0x42)}
+			m.Address = [3]byte{byte(k >> 14 & 127), byte(k >> 7 & 127), byte(k & 127)}
+			m.SendingData = r.Bytes7(plen)
+			vals[k] = m
+			built[k] = m.SysEx()
+		}
+		c.Eval(1)
+		c.Count("built_messages_alive_at_once", int64(n))
+		for k := range vals {
+			p, err := sysex.Parse(built[k])
+			if err != nil || p == nil || p.Address != vals[k].Address || !bytes.Equal(p.SendingData, vals[k].SendingData) || p.DeviceID != vals[k].DeviceID {
+				c.Violation("many-built-parse", fmt.Sprintf("message %d of %d built in a row (payload %d bytes, %d bytes each) no longer parses back to its value after the later ones were built: %v", k, n, plen, len(built[k]), err), short(vals[k]), nil, mon.Hex(built[k]))
+				return
+			}
+		}
+		c.DistinctBytes([]byte(fmt.Sprint("manybuilt", i, n)))
 	})
 
 	// locate
